@@ -127,6 +127,7 @@ def main():
     assumptions = ["the lexers are exercised on one-character inputs (plus one terminator); longer contexts are C01/C02's business",
                    "obligations/discharged count only Verus obligations; the exhaustive native runs are listed separately and are complete for the finite domain"] + \
                   ["assumed/trusted item in generated Verus file: " + a for a in summ["assumption_scan"]]
+    rc = C.settle(rc, summ["discharged"] + len(tables.get("ok", [])) + len(lexinfo.get("ok", [])))
     C.write_evidence(PROP, "proof", cov, assumptions, time.time() - t0, violations)
     for ln in lines:
         C.say(ln)
